@@ -6,8 +6,8 @@ import os
 VERIF = os.path.dirname(os.path.dirname(os.path.abspath(__file__)))
 
 CHECKS = [
-    dict(id="C01", engine="inbox-graph", technique="TLC exhaustive on Inbox.tla + B-graph edge-cover replay of the real Inbox/RingBuffer through scheduling gates",
-         text="Inbox.tla is model-checked exhaustively (all interleavings of senders, Start and workers, batch splits) for NoDup/Order/NoForge/Complete; the real actor.Inbox and ringbuffer are then stepped along every edge of that state graph (each initial ring size) with the projected state compared after every atomic operation, so the code is shown step-for-step equivalent to the model on the instance. After any disagreement the gate schedules of the code itself are enumerated and judged by the delivery oracle only.",
+    dict(id="C01", engine="inbox-graph", technique="TLC exhaustive on Inbox.tla + B-graph edge-cover replay of the real Inbox/RingBuffer through scheduling gates; TLC exhaustive on Route.tla (public send / forward / respond / request paths) + B-table on a real engine",
+         text="Inbox.tla is model-checked exhaustively (all interleavings of senders, Start and workers, batch splits) for NoDup/Order/NoForge/Complete; the real actor.Inbox and ringbuffer are then stepped along every edge of that state graph (each initial ring size) with the projected state compared after every atomic operation, so the code is shown step-for-step equivalent to the model on the instance. After any disagreement the gate schedules of the code itself are enumerated and judged by the delivery oracle only. Engine level: Route.tla enumerates every entry (Engine.Send, SendWithSender with and without a sender, Request) x script of up to 2 (quick) / 3 (thorough) hops (Context.Forward, Context.Send, Context.Respond, unregistered targets); each is executed on a real engine and every delivery (receiver, message, sender seen by the receiver, order), every dead letter (target, message, sender) and the value returned by Result() are compared with TLC's.",
          note="bounded instances (<=3 senders, <=3 messages, batch 1..2 via rewritten messageBatchSize); sequentially consistent interleavings; gate shims generated from the working tree",
          ref="4/C01, 2.2 B-graph"),
     dict(id="C02", engine="inbox-graph", technique="TLC exhaustive on Inbox.tla + B-graph edge-cover replay of the real Inbox through scheduling gates",
@@ -136,6 +136,8 @@ def main():
              "kind_free_text": "operation sequences of RemoteLink.tla replayed on two real engines over loopback TCP (B-scenario)"},
             {"name": "wire-table", "path": "harness/cmd/wiretable", "serves_properties": ["C15", "C16"],
              "kind_free_text": "cases enumerated by TLC from Wire.tla executed on the real stream writer / reader (B-table)"},
+            {"name": "route-table", "path": "harness/cmd/routetable", "serves_properties": ["C01"],
+             "kind_free_text": "entries x scripts enumerated by TLC from Route.tla executed on a real engine, per-actor deliveries / dead letters / Result() compared (B-table)"},
             {"name": "ring-table", "path": "harness/cmd/ringtable", "serves_properties": ["C14"],
              "kind_free_text": "TLC state graph of RingBuffer.tla driven on the real RingBuffer, API results compared (B-table)"},
         ],
